@@ -113,6 +113,19 @@ fn main() -> ExitCode {
             }
             ExitCode::SUCCESS
         }
+        Some("docbatch") => {
+            // stdin lines: <dir> <start> <out-docdump>
+            use std::io::BufRead;
+            for line in std::io::stdin().lock().lines().map_while(Result::ok) {
+                let f: Vec<&str> = line.split('\t').collect();
+                if f.len() != 3 {
+                    println!("bad-line");
+                    continue;
+                }
+                println!("{}", run::cmd_docdump(f[0], f[1], f[2]));
+            }
+            ExitCode::SUCCESS
+        }
         _ => {
             eprintln!("usage: zv extract <repo> <outdir>");
             ExitCode::from(2)
